@@ -45,7 +45,6 @@
 package ce
 
 import (
-	"bufio"
 	"fmt"
 	"io"
 
@@ -62,17 +61,16 @@ import (
 // Unmarshal a CE document (CBE or CTE) from a reader, creating an object of the same type as the template.
 // If template is nil, a best-guess type will be returned (likely a slice or map).
 func UnmarshalCE(reader io.Reader, template interface{}, config *configuration.Configuration) (decoded interface{}, err error) {
-	bufReader := bufio.NewReader(reader)
-	firstByte, err := bufReader.Peek(1)
+	firstByte, wholeReader, err := peekFirstByte(reader)
 	if err != nil {
 		return
 	}
 
-	unmarshaler, err := chooseUnmarshaler(firstByte[0], config)
+	unmarshaler, err := chooseUnmarshaler(firstByte, config)
 	if err != nil {
 		return
 	}
-	return unmarshaler.Unmarshal(bufReader, template)
+	return unmarshaler.Unmarshal(wholeReader, template)
 }
 
 // Unmarshal a CE document (CBE or CTE) from a byte slice, creating an object of the same type as the template.
